@@ -14,7 +14,9 @@ TIER="smoke (+quick for the small monitors)"
 BIN_DIR="$(dirname "$(find "$HOME/.rustup/toolchains" -path '*nightly-x86_64*' -name llvm-cov | head -1)")"
 rm -rf "$T"; mkdir -p "$T/raw" "$T/out"
 export CARGO_NET_OFFLINE=true
-RUSTFLAGS="-Cinstrument-coverage" cargo +nightly build --offline --release \
+# (build scripts and proc-macros are instrumented too and write a profile when they run: send those to the scratch
+# directory instead of the crates' source directories)
+LLVM_PROFILE_FILE="$T/build-raw/build-%m-%p.profraw" RUSTFLAGS="-Cinstrument-coverage" cargo +nightly build --offline --release \
   --manifest-path "$VERIF/monitor/Cargo.toml" --target-dir "$T/target" 2>&1 | tail -2
 # Instrumented counters are shared between threads (cache-line contention makes a 16-thread exhaustive pass ~100x
 # slower), so: the smoke tier of every monitor on 2 threads, and in addition the quick tier on 4 threads for the
